@@ -37,7 +37,7 @@ EXPLANATION = (
 ASSUMPTIONS = ["TSDataView::subscribe/unsubscribe are the only ways a target can reach a consumer (C03.a/b)",
                "TimeSeriesReference::operator== is identity of the designated output (time_series_reference.cpp)"]
 DECIDED = ["a selection operators", "c consumer blend", "d sampled bind", "e cross-boundary clamp (shared C09.b)", "f re-subscription on retarget",
-           "g refresh re-applies the reference", "h same-target de-dup and sampling mode", "j unsubscribe before a target handle is dropped"]
+           "g refresh re-applies the reference", "h same-target de-dup and sampling mode", "j unsubscribe before a target handle is dropped", "k slot-id bounds of the keyed retarget delta"]
 NOT_DECIDED = ["observed value/delta equals the target's at every tick", "keyed-shape old/new difference", "unselected targets never wake the consumer at run time"]
 
 
@@ -355,8 +355,13 @@ def check(run: Run) -> None:
              else Expect(calls=[("APPLY", ("plan", ANY, r"source\.view\(modified_time\)", "T"))]),
              role_calls={"APPLY": r"apply_from_ref_interior"}, what="InteriorFromRefAlternativeState::refresh")
 
+    with run.obligation("C13.k", "K3+K6", "keyed retarget deltas scan the old and new target by SLOT id: loops over slot ids and comparisons of a found "
+                        "slot id are bounded by the slot capacity, never by the live count (a shared key above a hole would count as added)"):
+        R.slot_bounds(run, "C13.k", ["src/hgraph/types/time_series/"], floor=4)
+
 
 VARIANTS = [
+    {"id": "k-previous-scan-bounded-by-size", "expect": "C13.k", "edits": [{"file": "src/hgraph/types/time_series/ts_input/target_link_ops.cpp", "find": "            const auto capacity = state->slot_access->slot_capacity(previous);", "replace": "            const auto capacity = state->slot_access->size(previous);"}]},
     {"id": "f-rebind-keeps-old-subscription", "expect": "C13.f", "edits": [{"file": ALT, "find": "            if (!source.same_as(next_source))\n            {\n                unsubscribe_source();\n                source = next_source;\n                subscribe_source();\n            }\n            refresh(new_source.evaluation_time());", "replace": "            if (!source.same_as(next_source))\n            {\n                source = next_source;\n                subscribe_source();\n            }\n            refresh(new_source.evaluation_time());"}]},
     {"id": "f-replace-sources-without-unsubscribe", "expect": "C13.f", "edits": [{"file": ALT, "find": "            unsubscribe_reference_sources();\n            reference_sources = std::move(next);", "replace": "            reference_sources = std::move(next);"}]},
     {"id": "f-notify-does-not-refresh", "expect": "C13.f", "edits": [{"file": ALT, "find": "                if (owner != nullptr) { owner->refresh(modified_time); }\n            }\n\n            RefLinkAlternativeState *owner{nullptr};", "replace": "                static_cast<void>(modified_time);\n            }\n\n            RefLinkAlternativeState *owner{nullptr};"}]},
